@@ -22,6 +22,7 @@ type PropCfg struct {
 	Note        string   `json:"note"`
 	Ground      []string `json:"ground"` // names of built-in ground checks
 	Exec        string   `json:"exec"`   // name of a built-in executable (bounded) check
+	FuncsTagged []string `json:"funcs_tagged"` // further functions for which only explicitly tagged obligations count
 	TaggedOnly  bool     `json:"tagged_only"` // count only obligations explicitly tagged with this property
 }
 
@@ -160,7 +161,11 @@ func cmdCheck(args []string) int {
 	var undecided []string
 	files := map[string]bool{}
 	usedLemmas := map[string]bool{}
-	for _, k := range cfg.Funcs {
+	taggedFn := map[string]bool{}
+	for _, k := range cfg.FuncsTagged {
+		taggedFn[fullKey(k)] = true
+	}
+	for _, k := range append(append([]string{}, cfg.Funcs...), cfg.FuncsTagged...) {
 		key := fullKey(k)
 		fnKey := key
 		if i := strings.Index(key, "@"); i >= 0 {
@@ -199,7 +204,7 @@ func cmdCheck(args []string) int {
 	dir, _ := os.MkdirTemp("", "pvc-"+id)
 	defer os.RemoveAll(dir)
 	filter := func(o *Obl) bool {
-		if cfg.TaggedOnly {
+		if cfg.TaggedOnly || taggedFn[o.Fn] {
 			return len(o.Tags) > 0 && tagged(o.Tags, id)
 		}
 		return tagged(o.Tags, id)
